@@ -37,6 +37,19 @@ func Menu(g *ag.Grammar, sigma []string, maxLen, n int) []string {
 			}
 		}
 	}
+	// grammars with few distinct outcomes: fill up with further inputs (same outcome, different text
+	// and length), so that no menu is trivial
+	in2 := map[string]bool{}
+	for _, m := range menu {
+		in2[m] = true
+	}
+	for k := 0; len(menu) < min(n, 4) && k < len(all); k++ {
+		s := all[(k*7+3)%len(all)]
+		if !in2[s] {
+			in2[s] = true
+			menu = append(menu, s)
+		}
+	}
 	return menu
 }
 
